@@ -31,3 +31,8 @@ S("C05", "wellformed", "F8-empty-root-elided-tag", ([_doc(("scalar", False, "tag
 S("C05", "scalar", "F7-folded", ([_doc(("scalar", False, None, (True, True), "a\n  word word word word word word word word end\nb", ">"))], {"width": 20}), "fixed 4c8ba10")
 S("C05", "scalar", "F5-nel", ([_doc(("scalar", False, None, (True, True), "a\x85b", None))], {"allow_unicode": True}), "fixed 93695ab")
 print("ok2")
+
+# ---- C08
+for i, t in enumerate(["0x_", "0b_", "-0b_", "2001-13-01", "2001-02-30", "0000-01-01", "2001-01-01 10:00:00 +24:00", "2001-01-01 24:00:00", "2001-1-1 1:00:60"]):
+    S("C08", "members", "F3-%d" % i, t, "fixed edc269e")
+print("ok3")
